@@ -487,6 +487,16 @@ class Hist:
         from srctools.math import Vec
         from srctools import instancing
         rng = self.rng
+        shared = getattr(self, 'shared_ifile', None)
+        if shared is not None and rng.random() < 0.5:
+            # the instance file of an earlier collapse, used again - for this map or for the other one
+            inst_ent = vmf.create_ent('func_instance', targetname='inst_again', origin='0 64 0', angles='0 0 0', file='x.vmf')
+            inst = instancing.Instance.from_entity(inst_ent)
+            instancing.collapse_one(vmf, inst, shared, visgroup=rng.choice((True, True, False)))
+            self.run.count('instance_files_collapsed_again')
+            self.log.append(f'collapse map{mi} an instance file used before collapsed again (visgroups kept or not)')
+            self.nontrivial = True
+            return
         tmpl = VMF()
         tmpl.add_brush(tmpl.make_prism(Vec(0, 0, 0), Vec(16, 16, 16)).solid)
         tmpl.create_ent('info_target', targetname='t', origin='0 0 0')
@@ -502,6 +512,7 @@ class Hist:
         inst_ent = vmf.create_ent('func_instance', targetname='inst', origin='64 0 0', angles='0 90 0', file='x.vmf')
         inst = instancing.Instance.from_entity(inst_ent)
         ifile = instancing.InstanceFile(tmpl)
+        self.shared_ifile = ifile
         for _ in range(rng.randint(1, 2)):
             mode = rng.choice((False, True, 'group'))
             if mode == 'group':
@@ -560,4 +571,4 @@ def replay(run, data) -> None:
 
 
 # (kept at the end of the file so that the text above stays the description the check was first built to)
-RULE += ' ' + 'Later additions: entities added again (the file must not hold them twice); faces replaced / deleted in live brushes; add_ents() of detached node entities; the node-ID key addressed in the spelling it is stored under (NodeID, NODEID); fixup indexes 0, -1, 100 and replace00 / replace-1 / replace100 in parsed documents; group, visgroup and replaceNN lines in the text scan. Brushes are moved out of a brush entity into the world or another entity before the entity is removed and collected; brushes made afterwards must not receive the IDs of the moved ones.'
+RULE += ' ' + 'Later additions: entities added again (the file must not hold them twice); faces replaced / deleted in live brushes; add_ents() of detached node entities; the node-ID key addressed in the spelling it is stored under (NodeID, NODEID); fixup indexes 0, -1, 100 and replace00 / replace-1 / replace100 in parsed documents; group, visgroup and replaceNN lines in the text scan. Brushes are moved out of a brush entity into the world or another entity before the entity is removed and collected; brushes made afterwards must not receive the IDs of the moved ones. The instance file of an earlier collapse is collapsed again, into the same map or into the other one, with its visgroups kept.'
